@@ -9,7 +9,8 @@ import itertools, warnings, inspect
 from . import core, progs
 from .core import sigtools, signatures
 
-FORMS = ('function', 'method', 'super', 'apply_super', 'super_closure', 'apply_super_shared', 'super_diamond')
+FORMS = ('function', 'method', 'super', 'apply_super', 'super_closure', 'apply_super_shared', 'super_diamond', 'cm_emulate_cls', 'cm_emulate_inst')
+# 'cm_emulate_*': an emulate=True declaration written ABOVE @classmethod, the method looked up on the class / on an instance
 # 'super_diamond': the receiver's class inherits the declaring class AND a sibling, so super() reaches the sibling's method;
 # a receiver of the declaring class itself is asked first (what super() finds depends on the receiver, not on the function)
 # 'apply_super_shared': ONE decorator object made by apply_forwards_to_super decorates an unrelated class first, then the class under test
@@ -67,6 +68,15 @@ def build(req):
         L += ind(dsrc(selfp + list(ops), 'wrapper', 'return ' + _call_src('self.inner', n, names, uva, uvk, va, vk)))
         L += ind(dsrc(selfp + list(ops), 'wrapper_plain', 'return None'))
         L += ['inst = C()', 'target = inst.wrapper', 'own = inst.wrapper_plain', 'callee = inst.inner']
+    elif form in ('cm_emulate_cls', 'cm_emulate_inst'):
+        clsp = [core.P('cls', 'pk')]
+        L += ['class C(object):'] + ind(truthy)
+        L += ind(['@classmethod'] + dsrc(clsp + list(ips), 'inner', _body_record(ips, 'inner')))
+        L += ind(["@specifiers.forwards_to_method('inner', %s, emulate=True)" % decl_args, '@classmethod'])
+        L += ind(dsrc(clsp + list(ops), 'wrapper', 'return ' + _call_src('cls.inner', n, names, uva, uvk, va, vk)))
+        L += ind(['@classmethod'] + dsrc(clsp + list(ops), 'wrapper_plain', 'return None'))
+        recv_e = 'C' if form == 'cm_emulate_cls' else 'C()'
+        L += ['inst = %s' % recv_e, 'target = inst.wrapper', 'own = inst.wrapper_plain', 'callee = inst.inner']
     elif form == 'super_closure':
         L += ['class Root(object):'] + ind(truthy)
         L += ind(dsrc(selfp + [core.P('q9', 'pk')], 'wrapper', "return ('root', q9)"))     # a decoy further up the MRO
